@@ -133,7 +133,10 @@ def main(argv=None):
     reported = []
     for it, r in violations:
         try:
-            ok, info = replay.replay_counterexample(pid, it, r, seed)
+            if r.get("self_replayed"):
+                ok, info = True, {"scenario": r.get("counterexample"), "native": r.get("replay")}
+            else:
+                ok, info = replay.replay_counterexample(pid, it, r, seed)
         except Exception:
             ok, info = None, {"error": traceback.format_exc()[-800:]}
         r["replay"] = info
@@ -220,6 +223,7 @@ def write_evidence(pid, tier, seed, spec, items, results, ginfo, wall, nviol, kn
             "bounds": spec.bounds.get(tier, spec.bounds.get("quick", "")) if isinstance(spec.bounds, dict) else spec.bounds,
             "outside_bounds": spec.outside,
             "source_sha256": ginfo.get("source_sha256"),
+            "size_cuts_in_mounted_copy": [c for c in ginfo.get("cuts", []) if any(c["file"].split("/")[-1][:-3] in (f or "") for f in [" ".join(spec.encodes).lower()])] or ginfo.get("cuts", []),
             "known_findings_reported": known_lines,
             "explanation": spec.explanation,
         },
